@@ -52,6 +52,8 @@ func coreMain(args []string) error {
 		return coreASTOne(m)
 	case "concurrent":
 		return coreConcurrent(m)
+	case "fromscripts":
+		return coreFromScripts(m)
 	}
 	return fmt.Errorf("core: unknown mode %s", args[0])
 }
